@@ -65,10 +65,10 @@ impl<'a> Lx<'a> {
     fn skip_blank(&mut self) -> Result<(), LexErr> {
         while self.i < self.cs.len() {
             let c = self.cs[self.i];
+            // blanks are exactly space, tab, CR and LF (C06 enumerates them; the shell that hands find its
+            // words splits on no others either): VT, FF, NBSP, U+2028, U+3000 ... are word characters
             if is_blank(c) {
                 self.i += 1;
-            } else if c.is_whitespace() || c == '\x0b' || c == '\x0c' {
-                return Err(LexErr::Unspec("whitespace character outside {space, tab, CR, LF}".into()));
             } else {
                 break;
             }
@@ -96,9 +96,6 @@ impl<'a> Lx<'a> {
             let text: String = self.cs[self.i + 1..j].iter().collect();
             self.i = j + 1;
             if !self.at_end() && !is_blank(self.cs[self.i]) && self.cs[self.i] != ')' {
-                if self.cs[self.i].is_whitespace() {
-                    return Err(LexErr::Unspec("exotic whitespace after quoted string".into()));
-                }
                 return Err(LexErr::Err("text glued to the end of a quoted string".into()));
             }
             return Ok(RawWord { text, quoted: true, start });
@@ -108,9 +105,6 @@ impl<'a> Lx<'a> {
         }
         let mut j = self.i;
         while j < self.cs.len() && !is_blank(self.cs[j]) && self.cs[j] != ')' {
-            if self.cs[j].is_whitespace() || self.cs[j] == '\x0b' || self.cs[j] == '\x0c' {
-                return Err(LexErr::Unspec("exotic whitespace inside a word".into()));
-            }
             j += 1;
         }
         let text: String = self.cs[self.i..j].iter().collect();
